@@ -803,6 +803,9 @@ impl Xot {
                         if target.as_str().eq_ignore_ascii_case("xml") {
                             let text = tokenizer.stream().span().as_str();
                             let start = if text.starts_with('\u{feff}') { 3 } else { 0 };
+                            // where the token itself starts (`position` may lie before
+                            // white space the tokenizer skipped)
+                            let position = target.start() - 2;
                             let version = if target.as_str() == "xml" && position == start && !fragment {
                                 content.and_then(|content| {
                                     declaration_version(text, content.start()..content.end())
@@ -825,6 +828,18 @@ impl Xot {
                                         position,
                                     ));
                                 }
+                            }
+                        }
+                        // PI ::= '<?' PITarget (S (Char* - (Char* '?>' Char*)))? '?>'
+                        // xmlparser does not insist on the white space between
+                        // the target and what follows it
+                        if let Some(content) = content {
+                            if content.start() == target.end() {
+                                let pos = tokenizer.stream().gen_text_pos_from(content.start());
+                                return Err(ParseError::XmlParser(
+                                    xmlparser::Error::UnknownToken(pos),
+                                    content.start(),
+                                ));
                             }
                         }
                         let node_id = builder.processing_instruction(
@@ -859,6 +874,11 @@ impl Xot {
                     }
                 }
             } else {
+                // the text ended inside a start tag (the tokenizer of a fragment
+                // ends silently there): that tag is never closed
+                if let Some(element_builder) = &builder.element_builder {
+                    return Err(ParseError::UnclosedTag(element_builder.span));
+                }
                 return Ok((span_info, builder));
             }
         }
